@@ -22,7 +22,7 @@ import (
 	"github.com/google/pprof/verif/internal/wire"
 )
 
-var strPool = []string{"", "a", "b", "\xff", "x\x00y", "kb", "bytes", "é", "line\nbreak", strings.Repeat("L", 300)}
+var strPool = []string{"", "a", "b", "\xff", "x\x00y", "kb", "bytes", "é", "line\nbreak", strings.Repeat("L", 300), "/proc/self/cwd", "/proc/self/cwd/."}
 var idPool = []uint64{1, 2, 3, 4, 5, 6, 7, 8, 9, 1 << 32, 1 << 63, math.MaxUint64, 1000, 1<<63 - 1}
 var i64Pool = []int64{0, 1, -1, 2, 127, 128, 16383, 16384, math.MaxInt64, math.MinInt64, 1 << 40, -(1 << 40)}
 
@@ -191,12 +191,18 @@ func RoundTrip(p *profile.Profile, origin string) (string, bool) {
 	if err != nil || got != want {
 		return fmt.Sprintf("%s: independent wire decode of WriteUncompressed output differs (err=%v)\n--- want\n%s--- got\n%s", origin, err, want, got), false
 	}
-	p1, err := profile.ParseUncompressed(b1.Bytes())
+	// the parser gets its own copy of the bytes, which is scribbled over afterwards: the profile
+	// it returned must not depend on the caller's buffer any more
+	inbuf := append([]byte(nil), b1.Bytes()...)
+	p1, err := profile.ParseUncompressed(inbuf)
 	if err != nil {
 		return fmt.Sprintf("%s: ParseUncompressed(WriteUncompressed(p)) failed: %v\n%s", origin, err, want), false
 	}
+	for i := range inbuf {
+		inbuf[i] = 'Z'
+	}
 	if v1 := wire.ViewProfile(p1); v1 != want {
-		return fmt.Sprintf("%s: parsed profile differs from the one written\n--- want\n%s--- got\n%s", origin, want, v1), false
+		return fmt.Sprintf("%s: parsed profile differs from the one written (after the caller reused its input buffer)\n--- want\n%s--- got\n%s", origin, want, v1), false
 	}
 	if err := mon.Valid(p1); err != nil {
 		return fmt.Sprintf("%s: re-parsed profile invalid: %v", origin, err), false
@@ -481,7 +487,7 @@ func init() {
 		ID:    "C01",
 		Level: "exploration",
 		Rule: "part gen: codec-class generator (sparse/huge/boundary ids, 0..4 sample types, 0..4 elements in every repeated field, extreme int64, empty/NUL/non-UTF8/long strings, partial units); part corpus: every repository testdata file that ParseData accepts (protobuf and legacy). part driver: codec-class profiles saved by the real driver with -proto: the reparsed output must carry the same values per (frames with every attribute incl. columns, labels) as the input (fake mapping for mapping-less profiles excepted), and -raw / -traces of it must equal the direct rendering. " +
-			"oracle per profile: independent wire decoder view == normalised in-memory view; ParseUncompressed/Parse/ParseData of the written bytes == original; gunzip(Write)==WriteUncompressed; byte fixpoint from the first re-serialisation; Copy equal, pointer-disjoint, mutation-isolated; inputs unmodified; the same object changed in place (mapping cleared/set, line re-pointed, labels removed/replaced, header cleared) and serialized again must round-trip according to its new contents. " +
+			"oracle per profile: independent wire decoder view == normalised in-memory view; ParseUncompressed/Parse/ParseData of the written bytes == original, also after the caller's input buffer has been overwritten; gunzip(Write)==WriteUncompressed; byte fixpoint from the first re-serialisation; Copy equal, pointer-disjoint, mutation-isolated; inputs unmodified; the same object changed in place (mapping cleared/set, line re-pointed, labels removed/replaced, header cleared) and serialized again must round-trip according to its new contents. " +
 			"non-trivial = has at least one sample, location or function; distinct = distinct table-size signature (or file)",
 		Assumptions: []string{"normalisation N: labels with empty string value, and numeric value 0 without unit, are unrepresentable in proto3 and dropped", "NumUnit is absent or as long as NumLabel (documented contract)"},
 		Parts: []harness.Part{
